@@ -12,11 +12,19 @@ LIFETIME_MS = 60000   # far above the wall-clock advance of the few T3 firings o
 
 
 class Config:
-    def __init__(self, name, chans, msgs, drop=1, dup=0, t3=1, maxnet=3, cntcap=3):
+    def __init__(self, name, chans, msgs, drop=1, dup=0, t3=1, maxnet=3, cntcap=3, mod=0, origin=0, smod=0, sorigin=0):
         self.name = name
+        self.mod, self.origin, self.smod, self.sorigin = mod, origin, smod, sorigin
         self.chans = chans      # {ch: dict(sid=, ordered=, maxRtx=)}   maxRtx -1 = reliable
         self.msgs = msgs        # [(ch, [frag sizes])]
         self.drop, self.dup, self.t3, self.maxnet, self.cntcap = drop, dup, t3, maxnet, cntcap
+
+    def wrapped(self, mod, origin, smod=0, sorigin=0):
+        """The same configuration with TSNs modulo `mod` starting at `origin` (and stream sequence
+        numbers modulo `smod` starting at `sorigin`)."""
+        c = Config(self.name + "@%d+%d/%d+%d" % (mod, origin, smod, sorigin), self.chans, self.msgs, self.drop, self.dup,
+                   self.t3, self.maxnet, self.cntcap, mod, origin, smod, sorigin)
+        return c
 
     def mc_module(self):
         ch = " @@ ".join("%d :> [sid |-> %d, ordered |-> %s, maxRtx |-> %d, life |-> %s]" % (
@@ -29,6 +37,7 @@ class Config:
         lines = ["SPECIFICATION " + spec, "CONSTANTS", " Chans <- MCChans", " Msgs <- MCMsgs",
                  " MaxDrop = %d" % self.drop, " MaxDup = %d" % self.dup, " MaxT3 = %d" % self.t3,
                  " MaxNet = %d" % self.maxnet, " CntCap = %d" % self.cntcap,
+                 " Mod = %d" % self.mod, " Origin = %d" % self.origin, " SMod = %d" % self.smod, " SOrigin = %d" % self.sorigin,
                  " Dev = {%s}" % ", ".join('"%s"' % d for d in dev), "VIEW View"]
         if constraint:
             lines.append("CONSTRAINT NetBound")
@@ -245,7 +254,7 @@ class LockStep:
             "outq": list(s["outq"]),
             "sentq": [[e["tsn"], e["acked"], e["retx"], e["misses"], e["cnt"], e["aband"], e["infl"]] for e in s["sentq"]],
             "flight": s["flight"], "cwnd": s["cwnd"], "ssthresh": s["ssthresh"], "pba": s["pba"],
-            "frExit": s["frExit"], "frTx": s["frTx"], "lastSacked": s["lastSacked"], "adv": s["adv"],
+            "frExit": s["frExit"] if s["frOn"] else 0, "frTx": s["frTx"], "lastSacked": s["lastSacked"], "adv": s["adv"],
             "fwd": s["fwd"]["on"], "t3": s["t3"], "dcq": len(s["dcq"]),
         }
         streams = {}
